@@ -185,6 +185,84 @@ func main() {
 		die("isNeedOracleSetRequest not found")
 	}
 
+	// 6. who writes the stored oracle sets / the latest nonce (whole repository, non-test files): the history theorem
+	//    (run_blocks_never_panics) lets everything else vary freely between two end blockers but not these
+	var writers []string
+	{
+		targets := map[string]bool{"StoreOracleSet": true, "DeleteOracleSet": true, "SetLatestOracleSetNonce": true, "AddOracleSetRequest": true}
+		for _, root := range []string{"x", "app"} {
+			_ = filepath.Walk(filepath.Join(repo, root), func(path string, fi os.FileInfo, err error) error {
+				if err != nil || fi.IsDir() || !strings.HasSuffix(path, ".go") || strings.HasSuffix(path, "_test.go") {
+					return nil
+				}
+				f, perr := parser.ParseFile(fset, path, nil, 0)
+				if perr != nil {
+					die("parse %s: %v", path, perr)
+				}
+				rel, _ := filepath.Rel(repo, filepath.Dir(path))
+				for _, d := range f.Decls {
+					fd, ok := d.(*ast.FuncDecl)
+					if !ok || fd.Body == nil {
+						continue
+					}
+					ast.Inspect(fd.Body, func(n ast.Node) bool {
+						if call, ok := n.(*ast.CallExpr); ok {
+							if sel, ok := call.Fun.(*ast.SelectorExpr); ok && targets[sel.Sel.Name] {
+								writers = append(writers, fmt.Sprintf("(\"%s\", \"%s:%s\")", sel.Sel.Name, rel, fd.Name.Name))
+							}
+						}
+						return true
+					})
+				}
+				return nil
+			})
+		}
+		sort.Strings(writers)
+	}
+
+	// 7. the conditions and derived values of the oracle-set phases, as source text in source order
+	var conds []string
+	for _, fn := range []string{"createOracleSetRequest", "isNeedOracleSetRequest", "AddOracleSetRequest", "pruneOracleSet"} {
+		fd, ok := funcs[fn]
+		if !ok {
+			die("function %s not found", fn)
+		}
+		ast.Inspect(fd.Body, func(n ast.Node) bool {
+			switch st := n.(type) {
+			case *ast.IfStmt:
+				c := src(fset, st.Cond)
+				if st.Init != nil {
+					c = src(fset, st.Init) + "; " + c
+				}
+				conds = append(conds, fmt.Sprintf("(\"%s\", \"if %s\")", fn, strings.ReplaceAll(c, "\"", "'")))
+			case *ast.AssignStmt:
+				if len(st.Lhs) == 1 {
+					if id, ok := st.Lhs[0].(*ast.Ident); ok && (id.Name == "tooEarly" || id.Name == "earliestToPrune" || id.Name == "oracleSetUpdatePowerChangePercent") {
+						conds = append(conds, fmt.Sprintf("(\"%s\", \"%s\")", fn, strings.ReplaceAll(src(fset, st), "\"", "'")))
+					}
+				}
+			}
+			return true
+		})
+	}
+	// PowerDiff's final expression
+	{
+		tf, perr := parser.ParseFile(fset, filepath.Join(repo, "x/crosschain/types/types.go"), nil, 0)
+		if perr != nil {
+			die("parse types.go: %v", perr)
+		}
+		for _, d := range tf.Decls {
+			if fd, ok := d.(*ast.FuncDecl); ok && fd.Name.Name == "PowerDiff" && fd.Body != nil {
+				ast.Inspect(fd.Body, func(n ast.Node) bool {
+					if r, ok := n.(*ast.ReturnStmt); ok && len(r.Results) == 1 {
+						conds = append(conds, fmt.Sprintf("(\"PowerDiff\", \"return %s\")", src(fset, r.Results[0])))
+					}
+					return true
+				})
+			}
+		}
+	}
+
 	// 5. the tail of gov Tally: divisions and early-return guards in source order
 	tallySteps, loopDivs := tallyTail(filepath.Join(repo, "x/gov/keeper/tally.go"))
 
@@ -216,6 +294,8 @@ func main() {
 		ss = append(ss, fmt.Sprintf("(\"%s\", \"%s\")", s.fn, s.what))
 	}
 	sb.WriteString("Definition gen_panic_sites : list (string * string) :=\n  [" + strings.Join(ss, ";\n   ") + "].\n")
+	sb.WriteString("Definition gen_oset_writers : list (string * string) :=\n  [" + strings.Join(writers, ";\n   ") + "].\n")
+	sb.WriteString("Definition gen_oset_conditions : list (string * string) :=\n  [" + strings.Join(conds, ";\n   ") + "].\n")
 	if err := os.WriteFile(filepath.Join(out, "Gen_EndBlock.v"), []byte(sb.String()), 0o644); err != nil {
 		die("%v", err)
 	}
